@@ -23,6 +23,8 @@ E = [
     (("#777", "#fff", True), True),          # same spelling as entry 0, large flag only
     (("#8a8a8a", "#ffffff"), True),          # same spelling as the entry above it, normal size
     (("#777", "#fff", False), True),         # 3-element form of entry 0
+    (((1, 1, 1), (0, 0, 0)), True),           # near-black on black ...
+    (((1.0, 1.0, 1.0), (0, 0, 0)), True),     # ... and white on black: equal as Python values, different colours
 ]
 SETTINGS = [(m, vr) for m in (0, 1, 2) for vr in (False, True)]
 
